@@ -252,6 +252,8 @@ def violates(rp, obs):
     if "harness_error" in obs:
         return False
     pre, post, m = concrete_pre(case), concrete_post(obs), concrete_msg(case)
+    if rp["obligation"].startswith("bounded."):
+        return any(c is False for n, c in send_clauses(pre, post, m, None) if n in rp.get("clauses", []))
     name = rp["obligation"].split(".", 1)[1]
     for n, c in send_clauses(pre, post, m, None):
         if n == name:
@@ -277,7 +279,10 @@ TASKS = [
 #   inbound traffic that itself causes sends: a served ResendRequest leaves stored = live  -> C09's sync[process_resend]
 import shared_tasks as _st  # noqa: E402
 SHARED = _st.journal_tasks(ops=("persist_msg",), find_seq_no=True, direction="OUTBOUND") + \
-    _st.from_module("C09_restart", ("crash[send_msg,transport_fault]", "sync[process_resend]"), "C09")
+    _st.from_module("C09_restart", ("crash[send_msg,transport_fault]", "sync[process_resend]"), "C09") + \
+    _st.from_module("C02_wire_frames", ("send_msg[st=*",), "C02", keep=("send.refused_text",))
+# (the last line: the send_msg proof above runs under A-ASCII; the refusal of other text - which must not consume or
+#  give back a number - is explored by C02's send tasks, whose clauses about it are run here)
 TASKS[-1:-1] = SHARED
 # A-IND: the induction step of "exactly one greater than the previous new message ... stored = last sent + 1" from
 # the clause terms of send_msg proved above (history_lemmas.py)
@@ -285,8 +290,38 @@ _lem = Task("lemma[history]", lambda I: __import__("history_lemmas").c05_history
 _lem.cover = False
 TASKS.insert(len(TASKS) - 1, _lem)
 
+def sweep_post(o):
+    """driver-side oracle of the bounded fallback: the clause function of the proof on each native observation"""
+    viol = []
+    for ob in o.get("observations", []):
+        case, obs = ob["case"], ob["obs"]
+        if "harness_error" in obs:
+            continue
+        pre, post, m = concrete_pre(case), concrete_post(obs), concrete_msg(case)
+        bad = [n for n, c in send_clauses(pre, post, m, None) if c is False]
+        if bad:
+            viol.append({"case": case, "observed": {"outcome": obs.get("outcome"), "post": {k: obs["post"].get(k) for k in
+                                                    ("st", "nout", "J_out", "out_rows")}, "W": obs["post"].get("W")},
+                         "clauses": bad, "replay_family": "conn"})
+        if len(viol) >= 20:
+            break
+    o = dict(o)
+    o["violations"] = viol
+    o.pop("observations", None)
+    return o
+
+
+from driver import Bounded  # noqa: E402
+FALLBACK = Bounded(
+    "send_attempts_every_state_role_shape", "c05_sweep", {}, {},
+    "1539 send attempts through the real send_msg / Codec.encode / Journaler: every connection state (19) x role (3) x "
+    "3 counter values x 9 message shapes (application / session types, PossDupFlag Y / N, SequenceReset, many body tags); "
+    "each observation is evaluated with the clause function of the proof (send_clauses)",
+    only_when_undecided=True, post=sweep_post)
+
 PROPERTY = Property(
     "C05", TASKS,
+    bounded=[FALLBACK],
     assumptions=[
         "A-IND: the history statement follows from the per-call clauses by induction over the history: the induction "
         "step is discharged by z3 from the proved clause terms (task lemma[history]: trace invariant 'last new number = "
